@@ -10,7 +10,11 @@
 // Reference = dense copy `d` of the LP taken before scaling, updated by the harness.
 #include "lp_build.h"
 using namespace soplex; using namespace vph;
-#ifndef NR
+// shape: -DVNR=.. -DVNC=.. (not NR/NC on the command line: lp_build.h uses these names for template parameters)
+#ifdef VNR
+#define NR VNR
+#define NC VNC
+#else
 #define NR 2
 #define NC 2
 #endif
